@@ -1301,3 +1301,48 @@ Lemma sd_refines_array_lemma : forall shape nt ops,
 Proof.
   intros shape nt ops Hn Hsh Hnt D. apply run_sim. apply sim_init; auto. exact D.
 Qed.
+
+(* ---- the frame of SDwritedata relative to the content, first write included ----------------------------- *)
+Lemma enough_vals : forall m start count (vals : list cell),
+  okvar m -> (0 < length (m_shape m))%nat ->
+  length start = length (m_shape m) -> length count = length (m_shape m) ->
+  length vals = Z.to_nat (prod count) ->
+  any2 coordck_bad start (m_shape m) = false ->
+  forall ps n, vario_plan m start count = Some (ps, n) -> n <> 0 -> (Z.to_nat n * length ps <= length vals)%nat.
+Proof.
+  intros m start count vals Hok Hn Hs Hc Hv B ps n P N0.
+  pose proof Hok as [Hr [Hnf [He [Hsh Hst]]]].
+  destruct (forallb (fun c => 1 <=? c) count) eqn:WF.
+  2:{ rewrite (illformed_no_positions m start count ps n Hok Hn Hs Hc B P N0 WF). simpl. lia. }
+  assert (Hf : Forall (fun c => 1 <= c) count).
+  { apply Forall_forall. intros x Hx. rewrite forallb_forall in WF. apply Z.leb_le. auto. }
+  pose proof (any2_false_nonneg _ _ Hs B) as Hnn.
+  assert (Hb : ((if is_recvar m then 1 else 0) < length (m_shape m))%nat) by (rewrite Hr; lia).
+  destruct (plan_decomp _ _ _ _ _ Hs Hc Hb Hnn P)
+    as [pre [dk [post [spre [sk [epre [ek [S1 [S2 [S3 [L2 [L3 [Hek [Pp Pn]]]]]]]]]]]]]].
+  rewrite Hv, Pp, map_length, S3, prod_app, prod_cons, Pn.
+  rewrite S3 in Hf. apply Forall_app in Hf. destruct Hf as [F1 F2].
+  rewrite odometer_length; [| lia | eapply Forall_impl; [| exact F1]; simpl; intros; lia].
+  pose proof (prod_pos _ F1). inversion F2; subst. pose proof (prod_pos _ H3).
+  rewrite <- Z2Nat.inj_mul by nia. apply Nat.eq_le_incl. f_equal. lia.
+Qed.
+
+(** SDwritedata with stride NULL on a fixed-size dataset in fill mode -- valid or not, SUCCEED or FAIL, FIRST write
+    (empty element: its content counts as all fill values) or later write: the only cells whose content changes are
+    cells of the requested region that lie inside the shape.  In particular after a first write every cell
+    outside the region holds the fill value, and a failing request never touches a cell outside its region. *)
+Lemma sd_write_frame_base : forall m start stride count vals i,
+  okvar m -> (0 < length (m_shape m))%nat ->
+  length start = length (m_shape m) -> length count = length (m_shape m) ->
+  length vals = Z.to_nat (prod count) ->
+  let m' := fst (sd_write m false start stride count vals) in
+  okvar m' /\ m_shape m' = m_shape m /\
+  (nth i (base m') Undef = nth i (base m) Undef \/
+   In i (map (idx (m_shape m)) (filter (inb (m_shape m)) (slab_cells start (ones start) count)))).
+Proof.
+  intros m start stride count vals i Hok Hn Hs Hc Hv. unfold sd_write. cbn [andb].
+  destruct (vario_write_pure m start count [] [] (map Val vals) Hok Hn Hs Hc) as [P1 [P2 [P3 [P4 _]]]].
+  { apply enough_vals; auto. rewrite map_length. auto. }
+  destruct (vario true start count (mkAcc m [] [] (map Val vals))) as [ok a']. cbn [fst snd] in *.
+  split; auto. split. apply P4. rewrite P2. apply write_changed; auto.
+Qed.
